@@ -1,2 +1,250 @@
-import SyneTune.Model.SyncScheduler
-/- placeholder, theorems follow -/
+import SyneTune.Lemmas.SyncRun
+/-
+C05 — synchronous Hyperband fills rungs exactly and promotes exactly the top trials.
+Property theorems only.  Models: `Model/SyncBracket.lean`, `Model/SyncManager.lean`,
+`Model/SyncScheduler.lean`; helper lemmas and the invariants (`BWF` of a bracket, `MWF` of
+the manager, `Inv` of the scheduler) are in `Lemmas/Sync*.lean`.
+
+`Reachable mode systems s`: `s` is the state of the scheduler constructed for the rung
+systems `systems` after ANY list of operations (`suggest` with a trial id not yet known to
+the scheduler / `on_trial_result` / `on_trial_error` / `on_trial_complete` /
+`on_trial_remove` / `trials_checkpoints_can_be_removed`, in any order, for any trials, any
+metrics, any resources) — every interleaving of the results of several open brackets and
+every subset of failing jobs is such a list.  The theorems are proved by induction over
+that list (`Lemmas/SyncRun.lean: run_inv`).
+-/
+namespace SyneTune.C05
+open SyneTune SyneTune.Sync
+
+/-- **Never raises.**  On a reachable state every operation that respects the loop's
+contract (fresh id for `suggest`) returns normally; the only exception possible is the
+assertion "training script must not skip rung levels" (a report beyond the milestone). -/
+theorem run_total (mode : Mode) (systems : List (List (Nat × Nat))) (s : Sched)
+    (h : Reachable mode systems s) (op : Op) (hl : LegalOp s op) :
+    (∃ s' o, s.step op = .ok (s', o)) ∨
+    (∃ tid r v id sl, op = .result tid r v ∧ alookup tid s.pending = some (id, sl) ∧ sl.level < r) :=
+  (step_spec (reachable_inv h).1 op hl).2.2
+
+/-- **Distinct trials.**  In every reachable state the slots of a rung hold pairwise
+distinct trials, and no trial occurs in two brackets. -/
+theorem distinct (mode : Mode) (systems : List (List (Nat × Nat))) (s : Sched)
+    (h : Reachable mode systems s) :
+    (∀ br ∈ s.mgr.brackets, ∀ rg ∈ br.rungs, (rg.slots.filterMap (·.tid)).Nodup) ∧
+    (∀ (i j : Nat) (bi bj : Bracket) (t : Nat), s.mgr.brackets[i]? = some bi → s.mgr.brackets[j]? = some bj →
+      bi.HasId t → bj.HasId t → i = j) := by
+  have hI := (reachable_inv h).1
+  refine ⟨?_, hI.disjoint⟩
+  intro br hbr rg hrg
+  obtain ⟨id, hid⟩ := List.mem_iff_getElem?.mp hbr
+  obtain ⟨spec, _, hb, _⟩ := hI.mwf.wf id br hid
+  exact hb.nodup rg hrg
+
+/-- **Rungs of exactly the configured size; brackets cycle through the rung systems.**
+Bracket `id` is built from rung system `id mod num_offsets`: its rungs (materialised or
+not yet) have exactly the sizes and levels of that system, and the recorded offset is
+`id mod num_offsets`. -/
+theorem cycle (mode : Mode) (systems : List (List (Nat × Nat))) (s : Sched)
+    (h : Reachable mode systems s) (id : Nat) (br : Bracket) (hbr : s.mgr.brackets[id]? = some br) :
+    ∃ spec, systems[id % systems.length]? = some spec ∧
+      br.rungs.map (fun r => (r.slots.length, r.level)) ++ br.todo = spec ∧
+      s.mgr.idToOffset[id]? = some (id % systems.length) ∧ br.mode = mode := by
+  obtain ⟨hI, hsys, hmode⟩ := reachable_inv h
+  obtain ⟨spec, hspec, hb, hm⟩ := hI.mwf.wf id br hbr
+  have hn : s.mgr.numOffsets = systems.length := by unfold Manager.numOffsets; rw [hsys]
+  refine ⟨spec, by rw [← hn, ← hsys]; exact hspec, hb.shape, ?_, hm.trans hmode⟩
+  have hidlt : id < s.mgr.idToOffset.length := by rw [hI.mwf.lenEq]; exact getElem?_lt hbr
+  rw [List.getElem?_eq_getElem hidlt, ← hn]
+  congr 1
+  exact hI.mwf.cycle id _ (List.getElem?_eq_getElem hidlt)
+
+/-- **Barrier.**  A rung `k+1` of a bracket exists (has slots) only if every slot of rung
+`k` is occupied by a result; only the current rung has unoccupied slots, and it always has
+one (a complete rung is advanced immediately). -/
+theorem barrier (mode : Mode) (systems : List (List (Nat × Nat))) (s : Sched)
+    (h : Reachable mode systems s) (br : Bracket) (hbr : br ∈ s.mgr.brackets) :
+    (∀ (k : Nat) (rgk next : Rung), br.rungs[k]? = some rgk → br.rungs[k + 1]? = some next →
+      ∀ x ∈ rgk.slots, x.metric.isSome = true) ∧
+    (∀ (k : Nat) (rgk : Rung) (x : Slot), br.rungs[k]? = some rgk → x ∈ rgk.slots → x.metric = none →
+      k = br.current) ∧
+    (∀ rg, br.rungs[br.current]? = some rg → ∃ x ∈ rg.slots, x.metric = none) := by
+  have hI := (reachable_inv h).1
+  obtain ⟨id, hid⟩ := List.mem_iff_getElem?.mp hbr
+  obtain ⟨spec, _, hb, _⟩ := hI.mwf.wf id br hid
+  refine ⟨?_, ?_, hb.open_⟩
+  · intro k rgk next hk hn x hx
+    have hlt := getElem?_lt hn
+    exact hb.done k rgk (by have := hb.len; omega) hk x hx
+  · intro k rgk x hk hx hxm
+    have hlt := getElem?_lt hk
+    by_contra hne
+    have hk' : k < br.current := by have := hb.len; omega
+    have := hb.done k rgk hk' hk x hx
+    rw [hxm] at this; cases this
+
+/-- **The next rung is the top list.**  Whenever rung `k+1` of a bracket exists, its slots
+hold, position by position, the ids `get_top_list` selects from the completed rung `k`
+(`topList`, characterised by `top_list_best` below).  A position whose top-list entry is
+`None` (a failed slot that never had a trial, promoted only under shortfall) may instead
+hold a trial that was started into that slot later; such a trial has reported there and
+occurs in no lower rung. -/
+theorem top (mode : Mode) (systems : List (List (Nat × Nat))) (s : Sched)
+    (h : Reachable mode systems s) (br : Bracket) (hbr : br ∈ s.mgr.brackets)
+    (k : Nat) (prev next : Rung) (hprev : br.rungs[k]? = some prev) (hnext : br.rungs[k + 1]? = some next) :
+    ∃ es, entriesOf prev.slots = some es ∧ es.length = prev.slots.length ∧
+      (topList es next.slots.length mode).length = next.slots.length ∧
+      ∀ (p : Nat) (o : Option Nat) (x : Slot),
+        (topList es next.slots.length mode)[p]? = some o → next.slots[p]? = some x →
+        x.tid = o ∨ (o = none ∧ ∀ t, x.tid = some t → x.metric.isSome = true ∧
+                      ∀ r ∈ br.rungs.take (k + 1), t ∉ r.slots.filterMap (·.tid)) := by
+  obtain ⟨hI, _, hmode⟩ := reachable_inv h
+  obtain ⟨id, hid⟩ := List.mem_iff_getElem?.mp hbr
+  obtain ⟨spec, _, hb, hm⟩ := hI.mwf.wf id br hid
+  obtain ⟨es, hes, hlen, hpt⟩ := hb.top k prev next hprev hnext
+  rw [hm.trans hmode] at hlen hpt
+  exact ⟨es, hes, (entriesOf_spec _ es hes).1, hlen, hpt⟩
+
+/-- **`get_top_list` selects exactly the best entries.**  `topSel rung n m` are the selected
+entries with their positions in the completed rung, in the order of the new rung
+(`topList` = their ids).  For `n ≤ |rung|` (rung sizes decrease):
+* exactly `n` entries at pairwise distinct positions of the rung are selected;
+* if the rung has at least `n` valid (non-NaN) entries: only valid entries are selected,
+  they are ordered by (metric key, position), and every selected entry ranks strictly
+  before every valid entry which is not selected — key = metric (`min`) / −metric (`max`),
+  ties by position;
+* otherwise all valid entries are selected; hence a failed (NaN) entry is selected only
+  when fewer than `n` valid ones exist. -/
+theorem top_list_best (rung : List TEntry) (n : Nat) (m : Mode) (hn : n ≤ rung.length) :
+    topList rung n m = (topSel rung n m).map (·.1.1) ∧
+    (topSel rung n m).length = n ∧
+    ((topSel rung n m).map (·.2)).Nodup ∧
+    (∀ x ∈ topSel rung n m, rung[x.2]? = some x.1) ∧
+    (n ≤ (rung.filter (fun e => !e.2.isNan)).length →
+      (∀ x ∈ topSel rung n m, IsValid x.1) ∧
+      (topSel rung n m).Pairwise (Better m) ∧
+      (∀ x ∈ topSel rung n m, ∀ (j : Nat) (e : TEntry), rung[j]? = some e → IsValid e →
+        j ∉ (topSel rung n m).map (·.2) → Better m x (e, j))) ∧
+    ((rung.filter (fun e => !e.2.isNan)).length < n →
+      ∀ (j : Nat) (e : TEntry), rung[j]? = some e → IsValid e → (e, j) ∈ topSel rung n m) ∧
+    (∀ x ∈ topSel rung n m, ¬ IsValid x.1 → (rung.filter (fun e => !e.2.isNan)).length < n) := by
+  rw [← validPos_length]
+  refine ⟨rfl, topSel_length rung n m hn, topSel_nodup rung n m, topSel_mem rung n m, ?_, ?_, ?_⟩
+  · intro hv
+    exact ⟨topSel_valid rung n m hv, topSel_sorted rung n m hv, topSel_best rung n m hv⟩
+  · intro hv
+    exact topSel_all_valid rung n m (by omega)
+  · intro x hx hnv
+    by_contra hc
+    exact hnv (topSel_valid rung n m (by omega) x hx)
+
+/-- **A request for work never blocks.**  `next_job` returns a job on every reachable state:
+the first free slot of the first bracket from the primary on that has a free slot in its
+current rung — and exactly when no open bracket has one, a new bracket is created (its
+first slot is the job). -/
+theorem never_blocks (mode : Mode) (systems : List (List (Nat × Nat))) (s : Sched)
+    (h : Reachable mode systems s) :
+    ∃ g' id sl, s.mgr.nextJob = .ok (g', id, sl) ∧
+      ((∃ br, s.mgr.brackets[id]? = some br ∧ s.mgr.primary ≤ id ∧ br.HasFree ∧
+          (∀ j b, s.mgr.primary ≤ j → j < id → s.mgr.brackets[j]? = some b → ¬ b.HasFree) ∧
+          g'.brackets.length = s.mgr.brackets.length ∧
+          sl.rungIndex = br.current ∧ sl.slotIndex = br.firstFree) ∨
+       (id = s.mgr.brackets.length ∧
+          (∀ j b, s.mgr.primary ≤ j → s.mgr.brackets[j]? = some b → ¬ b.HasFree) ∧
+          g'.brackets.length = s.mgr.brackets.length + 1 ∧ sl.rungIndex = 0 ∧ sl.slotIndex = 0)) := by
+  have hI := (reachable_inv h).1
+  obtain ⟨g', id, sl, hjob, hcase, _⟩ := nextJob_spec hI.mwf
+  refine ⟨g', id, sl, hjob, ?_⟩
+  cases hcase with
+  | existing id br rg x hge hbr hbefore hf hrg hsl =>
+    exact Or.inl ⟨br, hbr, hge, hf, hbefore, by simp [Manager.setBracket], rfl, rfl⟩
+  | fresh br rg x hnone hok hcur hff hid hf hrg hsl =>
+    exact Or.inr ⟨rfl, hnone, by simp [Manager.setBracket], hcur, hff⟩
+
+/-- `suggest` (scheduler level) always answers: a new trial, a trial to resume, or —
+only when the searcher has no configuration — nothing. -/
+theorem suggest_total (mode : Mode) (systems : List (List (Nat × Nat))) (s : Sched)
+    (h : Reachable mode systems s) (tid : Nat) (c : Bool) (hfresh : tid ∉ s.configs) :
+    ∃ s' sg calls, s.suggest tid c = .ok (s', sg, calls) ∧ (sg = .none → c = false) := by
+  obtain ⟨s', sg, calls, hs, _, hf⟩ := suggest_spec (reachable_inv h).1 tid c hfresh
+  refine ⟨s', sg, calls, hs, ?_⟩
+  intro hsg
+  obtain ⟨_, _, _, _, _, _, _, _, _, _, hc⟩ := hf.job
+  rcases hc with ⟨_, _, h1, _⟩ | ⟨_, _, h1, _⟩ | ⟨_, h1, _⟩
+  · rw [hsg] at h1; cases h1
+  · rw [hsg] at h1; cases h1
+  · exact h1
+
+/-- **Primary bracket.**  The primary bracket is the one with the least id among the
+incomplete brackets: all brackets below it are complete, it is not. -/
+theorem primary (mode : Mode) (systems : List (List (Nat × Nat))) (s : Sched)
+    (h : Reachable mode systems s) :
+    s.mgr.primary < s.mgr.brackets.length ∧
+    (∀ id br, id < s.mgr.primary → s.mgr.brackets[id]? = some br → br.isComplete = true) ∧
+    (∀ br, s.mgr.brackets[s.mgr.primary]? = some br → br.isComplete = false) := by
+  have hw := (reachable_inv h).1.mwf
+  exact ⟨hw.primLt, hw.below, hw.primOpen⟩
+
+/-- **A trial is resumed only after its whole rung has reported, and only from the top
+list.**  If `suggest` answers "resume `t` to level `lvl`", then in the resulting state `t`
+sits in the current rung `k+1 ≥ 1` of some bracket, at level `lvl`; every slot of rung `k`
+holds a result; and `t` is an element of the top list of rung `k`. -/
+theorem resume_is_top (mode : Mode) (systems : List (List (Nat × Nat))) (s : Sched)
+    (h : Reachable mode systems s) (tid : Nat) (c : Bool) (hfresh : tid ∉ s.configs)
+    (s' : Sched) (t lvl : Nat) (cl : Option Nat) (calls : List SCall)
+    (hs : s.suggest tid c = .ok (s', .resume t lvl cl, calls)) :
+    ∃ (id : Nat) (br : Bracket) (k : Nat) (prev rg : Rung) (es : List TEntry),
+      s'.mgr.brackets[id]? = some br ∧ br.current = k + 1 ∧
+      br.rungs[k]? = some prev ∧ br.rungs[k + 1]? = some rg ∧ rg.level = lvl ∧
+      (∀ y ∈ prev.slots, y.metric.isSome = true) ∧
+      entriesOf prev.slots = some es ∧ some t ∈ topList es rg.slots.length br.mode := by
+  have hI := (reachable_inv h).1
+  obtain ⟨s2, sg, calls2, hs2, hI2, hf⟩ := suggest_spec hI tid c hfresh
+  rw [hs] at hs2
+  simp only [Except.ok.injEq, Prod.mk.injEq] at hs2
+  obtain ⟨rfl, rfl, rfl⟩ := hs2
+  obtain ⟨g1, id, sl, br1, rg, x, _, _, hh, _, hc⟩ := hf.job
+  rcases hc with ⟨t', hx, hsg, hm, _⟩ | ⟨_, _, hsg, _⟩ | ⟨_, _, hsg, _⟩
+  · simp only [Suggestion.resume.injEq] at hsg
+    obtain ⟨rfl, rfl, _⟩ := hsg
+    have hbr : s'.mgr.brackets[id]? = some br1 := by rw [hm]; exact hh.hbr
+    obtain ⟨spec, _, hb, _⟩ := hI2.mwf.wf id br1 hbr
+    -- the current rung is not the base rung: there a slot with an id holds a result
+    have hpos : br1.current ≠ 0 := by
+      intro h0
+      have := hb.base rg (h0 ▸ hh.hrg) x (List.mem_of_getElem? hh.hsl) (by rw [hx]; rfl)
+      rw [hh.empty] at this; cases this
+    obtain ⟨k, hk⟩ : ∃ k, br1.current = k + 1 := ⟨br1.current - 1, by omega⟩
+    have hprevlt : k < br1.rungs.length := by have := getElem?_lt hh.hrg; omega
+    have hprev := List.getElem?_eq_getElem hprevlt
+    have hrg' : br1.rungs[k + 1]? = some rg := hk ▸ hh.hrg
+    obtain ⟨es, hes, hlen, hpt⟩ := hb.top k _ rg hprev hrg'
+    have hqlt : sl.slotIndex < (topList es rg.slots.length br1.mode).length := by
+      rw [hlen]; exact getElem?_lt hh.hsl
+    have ho := List.getElem?_eq_getElem hqlt
+    refine ⟨id, br1, k, _, rg, es, hbr, hk, hprev, hrg', hh.lvl.symm, ?_, hes, ?_⟩
+    · exact hb.done k _ (by omega) hprev
+    · rcases hpt sl.slotIndex _ x ho hh.hsl with h1 | ⟨_, h2⟩
+      · rw [← hx, h1]; exact List.getElem_mem hqlt
+      · have := (h2 t hx).1
+        rw [hh.empty] at this; cases this
+  · cases hsg
+  · cases hsg
+
+/-! ### non-vacuity: concrete reachable states -/
+
+/-- two brackets' worth of history on the system `[[(2,1),(1,2)],[(1,2)]]`: both trials of
+the base rung report, the better one (trial 1, metric 1/4 < 1/2) is promoted. -/
+example :
+    ∃ s0 s, Sched.init .min [[(2, 1), (1, 2)], [(1, 2)]] false false = .ok s0 ∧
+      s0.run [.suggest 0 true, .suggest 1 true, .result 0 1 (.val (1/2)), .result 1 1 (.val (1/4))] = s ∧
+      s.mgr.brackets.map (fun b => (b.current, b.rungs.map (fun r => r.slots))) =
+        [(1, [[⟨some 0, some (.val (1/2))⟩, ⟨some 1, some (.val (1/4))⟩], [⟨some 1, none⟩]])] ∧
+      s.removable = [some 0] :=
+  ⟨_, _, rfl, rfl, by decide +kernel, by decide +kernel⟩
+
+example : topList [(some 0, .val 3), (some 1, .nan), (some 2, .val 1), (some 3, .val 3)] 2 .min = [some 2, some 0] := by
+  decide +kernel
+
+example : topList [(some 0, .val 3), (some 1, .nan), (none, .nan)] 2 .max = [some 0, some 1] := by
+  decide +kernel
+
+end SyneTune.C05
